@@ -40,6 +40,11 @@ def check(P, rep):
         for e in effs:
             ok, _, w = mg(g, [e.node], (), edges(nonempty)) if nonempty else (False, None, None)
             rep.check(ok, 'C01.R1', 'approve_messages:%s:nonempty' % e.kind, 'approval effect is must-guarded by !messages.is_empty()', esite(g, e), None, w)
+        # "accepts a batch only if": not only the effects - every SUCCESS exit lies behind the proof facts and the non-empty test (a fast path
+        # that answers Ok for a batch of already-known ids without looking at the proof accepts unauthenticated submissions)
+        for name, gs in (('lookup', pf.lookup), ('retention', pf.retention), ('threshold', pf.threshold), ('nonempty', nonempty)):
+            rep.check(bool(gs) and g.success_needs((), edges(gs)), 'C01.R1', 'approve_messages:accept-needs-%s' % name,
+                      'every success exit of approve_messages lies behind the %s guard' % name, entry_id(g))
         check_sig_loop(rep, 'C01.R3', g, pf)
         completeness(rep, 'C01.R7', g, pf, extra=[('empty batch', lambda c_: c_[0] == 'true' and c_[1][0] == 'call' and c_[1][1].endswith('::is_empty') and core(c_[1][2][0]) == msgs)])
         # R2: batch binding — the approving loop iterates the signed vector
